@@ -753,9 +753,9 @@ theorem C18_identity_coherent :
     ∀ r ∈ Generated.gateIdentity, r.cls ∉ knownIncoherent → coherent r = true := table_coherent
 
 open BqVerif.GateIdentity in
-/-- the exemption list is exact: every exempted class has an incoherent row (the findings
-`hash-eq:ConstantUnitaryGate`, `hash-eq:TaggedGate`, `hash-eq:CircuitGate:name`; each is
-replayed on the real classes by harness/c18_identity.py on every run). -/
+/-- the exemption list is exact: every exempted class has an incoherent row (the remaining
+finding `hash-eq:ConstantUnitaryGate`: `np.allclose` against exact corner entries; it is
+reproduced on the real classes by harness/c18_identity.py on every run). -/
 theorem C18_identity_findings_witness :
     ∀ c ∈ knownIncoherent, ∃ r ∈ Generated.gateIdentity, r.cls = c ∧ coherent r = false :=
   known_incoherent
@@ -807,5 +807,14 @@ theorem C18_identity_tight :
     (∃ x y, listSem.rel .approx x y ∧ listSem.fn .corner x ≠ listSem.fn .corner y) ∧
     (∃ x y, listSem.rel .opsGateLoc x y ∧ listSem.fn .ident x ≠ listSem.fn .ident y) :=
   compatible_tight
+
+open BqVerif.GateIdentity in
+/-- the classes repaired upstream (888a9b2 `CircuitGate.__hash__`, aeaacf4
+`TaggedGate.__hash__`) are no longer exempt: their regenerated rows are coherent, with a
+hash of their own. -/
+theorem C18_identity_repaired :
+    ∀ c ∈ ["CircuitGate", "TaggedGate"], c ∉ knownIncoherent ∧
+      ∃ r ∈ Generated.gateIdentity, r.cls = c ∧ r.hashBy ≠ "object" ∧ coherent r = true :=
+  repaired_coherent
 
 end BqVerif.C18
